@@ -71,6 +71,34 @@ fn matrix_resources(built: &Built) -> Vec<(Res, ResourceContext)> {
     out
 }
 
+/// The Principal's whole resolved authority as the model sees it: every cell
+/// of the decision matrix plus the mask choice per element. `None` when the
+/// documentation leaves a mask choice open (the battery then always runs).
+fn view_key(model: &GovModel, who: usize) -> Option<u64> {
+    let (strength, _) = strength_of(who);
+    let mut text = String::new();
+    let mut resources = vec![Res::space()];
+    for el in POP {
+        resources.push(Res { kind: el.kind_str().into(), schema_ref: el.schema_ref(), class: el.effective_class().into(), key: el.key.into() });
+    }
+    for perm in MATRIX_PERMS {
+        for r in &resources {
+            match model.decide(who, strength, perm, r) {
+                Dec::Deny => text.push('d'),
+                Dec::GateUnspecified => text.push('u'),
+                Dec::Allow { masks, open } => {
+                    if masks.len() > 1 {
+                        return None;
+                    }
+                    text.push(if masks.contains(&true) { 'm' } else { 'a' });
+                    text.push(if open { 'o' } else { '-' });
+                }
+            }
+        }
+    }
+    Some(util::fnv64(text.as_bytes()))
+}
+
 type CloneKey = (u16, u16);
 
 /// Owner answers on filtered clones, shared by all workers (content is a
@@ -186,6 +214,7 @@ struct Tally {
     matrix_decisions: u64,
     overdenied: u64,
     consequent: u64,
+    battery_skipped_same_authority: u64,
     gate_unspecified: u64,
     nontrivial: Vec<u64>,
     failures: Vec<Failure>,
@@ -206,6 +235,9 @@ async fn eval_config(
     clones: &Clones,
     tally: &mut Tally,
     only: Option<(usize, &str)>,
+    // run the battery for p1 / p2? (false: an identical resolved authority
+    // already answered it; the decision matrix is compared regardless)
+    battery_for: [bool; 3],
 ) {
     let mut cfg = Cfg::open(nexus, tag, &built.id_of).await;
     for a in config {
@@ -288,6 +320,10 @@ async fn eval_config(
         }
 
         if who == 3 {
+            continue;
+        }
+        if !battery_for[who] && wrong.is_empty() {
+            tally.battery_skipped_same_authority += 1;
             continue;
         }
         let matrix_failed = tally.failures.iter().any(|f| f.kind == "authz" && f.who == who && f.config == config);
@@ -492,7 +528,7 @@ fn main() {
             let nexus = fresh_nexus("replay").await;
             let built = pop::build(&nexus, &[true; N], &[false; N]).await;
             let only = if items.iter().any(|i| i.label == label) { Some((who, label.as_str())) } else { None };
-            eval_config(&nexus, &built, "r", &config, &items, &clones, &mut tally, only).await;
+            eval_config(&nexus, &built, "r", &config, &items, &clones, &mut tally, only, [true; 3]).await;
         });
         let want_kind = r["kind"].as_str().unwrap_or("");
         for f in &tally.failures {
@@ -543,6 +579,7 @@ fn main() {
     // first sequence (lexicographic) reaching each canonical model state.
     let full_depth = run.tier.pick(2, 3);
     let mut seen_states: BTreeSet<u64> = BTreeSet::new();
+    let mut seen_views: BTreeSet<u64> = BTreeSet::new();
     let mut totals = Tally::default();
     let mut completed_depth = 0;
     let mut pruned_noop = 0u64;
@@ -552,7 +589,7 @@ fn main() {
 
     'depths: for depth in 1..=max_depth {
         let t_depth = std::time::Instant::now();
-        let mut work: Vec<Vec<Action>> = Vec::new();
+        let mut work: Vec<(Vec<Action>, [bool; 3])> = Vec::new();
         for seq in sequences(alphabet, depth) {
             let Some(state) = model_state(&seq) else {
                 pruned_noop += 1;
@@ -564,13 +601,22 @@ fn main() {
                 pruned_state += 1;
                 continue;
             }
-            work.push(seq);
+            // the battery runs for the first configuration (in this fixed order)
+            // that gives a Principal a resolved authority not seen before
+            let mut flags = [false; 3];
+            for who in 1..3 {
+                flags[who] = match view_key(&state, who) {
+                    Some(key) => seen_views.insert(key),
+                    None => true,
+                };
+            }
+            work.push((seq, flags));
         }
         // chunks share a Nexus; membership and order inside a chunk are fixed,
         // so the verdict does not depend on thread scheduling.
         eprintln!("depth {depth}: model pre-pass {:.1}s", t_depth.elapsed().as_secs_f64());
         let chunk_len = 24;
-        let chunks: Vec<(usize, Vec<Vec<Action>>)> = work.chunks(chunk_len).map(|c| c.to_vec()).enumerate().collect();
+        let chunks: Vec<(usize, Vec<(Vec<Action>, [bool; 3])>)> = work.chunks(chunk_len).map(|c| c.to_vec()).enumerate().collect();
         let items_ref = &items;
         let clones_ref = &clones;
         let results = util::par_map(chunks, threads, move |(ci, chunk)| {
@@ -581,8 +627,8 @@ fn main() {
             util::block_on(async {
                 let nexus = fresh_nexus(&format!("main-{depth}-{ci}")).await;
                 let built = pop::build(&nexus, &[true; N], &[false; N]).await;
-                for (k, config) in chunk.iter().enumerate() {
-                    eval_config(&nexus, &built, &format!("{depth}x{ci}x{k}"), config, items_ref, clones_ref, &mut tally, None).await;
+                for (k, (config, flags)) in chunk.iter().enumerate() {
+                    eval_config(&nexus, &built, &format!("{depth}x{ci}x{k}"), config, items_ref, clones_ref, &mut tally, None, *flags).await;
                 }
             });
             (true, tally)
@@ -597,6 +643,7 @@ fn main() {
             totals.matrix_decisions += t.matrix_decisions;
             totals.overdenied += t.overdenied;
             totals.consequent += t.consequent;
+            totals.battery_skipped_same_authority += t.battery_skipped_same_authority;
             totals.gate_unspecified += t.gate_unspecified;
             totals.nontrivial.extend(t.nontrivial);
             totals.failures.extend(t.failures);
@@ -631,6 +678,7 @@ fn main() {
     run.add("pruned_known_state_sequences", pruned_state);
     run.add("overdenied_not_a_violation", totals.overdenied);
     run.add("battery_failures_explained_by_a_decision_disagreement", totals.consequent);
+    run.add("batteries_skipped_same_resolved_authority", totals.battery_skipped_same_authority);
     run.add("gate_unspecified_skipped", totals.gate_unspecified);
     run.set("completed_depth", json!(completed_depth));
     run.set("alphabet", json!(alphabet.iter().map(|a| a.name()).collect::<Vec<_>>()));
@@ -646,6 +694,7 @@ fn main() {
         MATRIX_PERMS.len(), N + 6, items.len()
     ));
     run.assume("AuthModel (vgov/src/model.rs) restates docs/anda_cognitive_nexus.md §10 and the rows.rs/decision.rs doc comments for the bounded alphabet; answers are compared after the canonicalisation documented in vgov/src/battery.rs (ids -> logical keys; clocks, tx ids and Space sequence numbers dropped)");
+    run.assume("the decision matrix is compared for every configuration and Principal; the battery is answered once per distinct resolved authority (every matrix cell + mask choice, in the fixed enumeration order): the read path consults the control plane only through EffectiveAuthority::authorize / may_read / reads_whole_space, resolved afresh per request");
     run.assume("configurations of one chunk share a Nexus and use fresh Principal/group/policy ids; a denial where AuthModel allows (over-denial) is counted, not reported: C19 is about disclosure");
 
     // one violation per (kind, family[, cause]); the replay is the shortest
